@@ -256,6 +256,62 @@ pub fn pool(tier: Tier, seed: u64, thin: usize) -> Vec<Family> {
             (keys, style)
         }));
     }
+    // F2a': a fan of `fo` children that all lead to ONE shared suffix node, immediately followed by a sibling branch that
+    // reaches the same suffix node through a single byte (or two): the suffix node is the last node written before the
+    // fan's node, and the node written right after the fan's node points at it
+    {
+        let fos = [1usize, 2, 31, 32, 33, 40, 64, 65, 200, 256];
+        let count = fos.len() * 3 * 3 * 2;
+        fams.push(fam("fan-then-single-path-to-the-shared-suffix", count, seed, move |i, rng| {
+            let fo = fos[i % fos.len()];
+            let slen = 1 + (i / fos.len()) % 3;
+            let style = [0usize, 8, 6][(i / (fos.len() * 3)) % 3];
+            let two = (i / (fos.len() * 9)) % 2 == 1;
+            let suffix: Vec<u8> = b"ste"[..slen].to_vec();
+            let mut bytes: Vec<u8> = (0..=255u8).collect();
+            for a in 0..256 {
+                let b = a + rng.usize(256 - a);
+                bytes.swap(a, b);
+            }
+            bytes.truncate(fo);
+            let mut keys: Vec<Vec<u8>> = vec![];
+            for &b in &bytes {
+                keys.push([&b"p"[..], &[b][..], &suffix[..]].concat());
+            }
+            keys.push([if two { &b"qxy"[..] } else { &b"qx"[..] }, &suffix[..]].concat());
+            if i % 4 == 3 {
+                keys.push([&b"r"[..], &suffix[..]].concat());
+            }
+            keys.sort();
+            keys.dedup();
+            (keys, style)
+        }));
+    }
+    // F2a'': rounds: every round holds the SAME few hundred pairwise different wide nodes (33..35 children each), followed by
+    // thousands of unrelated keys that push them out of the builder's node cache before the next round meets them again
+    fams.push(fam("recurring-wide-nodes-after-filler", 6, seed, move |i, rng| {
+        let rounds = 2 + i % 3;
+        let nwide = [100usize, 300][i / 3 % 2];
+        let nfill = [2000usize, 6000][i % 2];
+        let mut keys: Vec<Vec<u8>> = vec![];
+        for round in 0..rounds as u8 {
+            for j in 0..nwide {
+                let start = (j % 200) as u8;
+                let len = 33 + (j / 200) as u8;
+                for x in start..start + len {
+                    keys.push(vec![0x10 + round, 0x00, (j >> 8) as u8, j as u8, x]);
+                }
+            }
+            for _ in 0..nfill {
+                let mut k = vec![0x10 + round, 0x01];
+                k.extend((0..10).map(|_| rng.next() as u8));
+                keys.push(k);
+            }
+        }
+        keys.sort();
+        keys.dedup();
+        (keys, [0usize, 6][i % 2])
+    }));
     // F2b: grid of fan-out x output width: a node with `fo` transitions whose outputs all need exactly `w` bytes
     // (w = 0 means a set), with and without a final output of that width
     {
@@ -299,20 +355,26 @@ pub fn pool(tier: Tier, seed: u64, thin: usize) -> Vec<Family> {
     // Shape: {p1+x: 0, p1+y: o2, p2+x: d, p2+y: 0}: node(p1) = [(x,0,leaf),(y,o2,leaf)], node(p2) = [(x,d,leaf),(y,0,leaf)].
     fams.push(Family {
         name: "cache-digest-collision",
-        count: 48,
+        count: 96,
         make: Box::new(move |i| {
             let mut rng = Rng::new(seed, 0xF_C011 + i as u64);
             const P: u64 = 1099511628211;
             let step = |h: u64, v: u64| (h ^ v).wrapping_mul(P);
-            let x = 1 + rng.below(120) as u8;
-            let y = x + 1 + rng.below(100) as u8;
+            // i >= 48: the two colliding nodes are WIDE: `lead` common children come before x and `trail` after y
+            // (equal in both nodes, values = small numbers, the first one 0 so that nothing moves up to the parent)
+            let (lead, trail) = if i < 48 { (0usize, 0usize) } else { [(40usize, 0usize), (70, 3), (30, 60), (64, 0), (130, 100), (0, 33)][(i / 12) % 6] };
+            let x = lead as u8 + 1 + rng.below(if i < 48 { 120 } else { 5 }) as u8;
+            let y = x + 1 + rng.below(if i < 48 { 100 } else { 5 }) as u8;
             let d = match i % 3 {
                 0 => 1 + rng.below(1000),
                 1 => rng.next() >> 8,
                 _ => rng.next(),
             };
             // digest of a non-final node without final output, as the cache computes it
-            let h0 = step(step(14695981039346656037, 0), 0);
+            let mut h0 = step(step(14695981039346656037, 0), 0);
+            for c in 0..lead {
+                h0 = step(step(step(h0, c as u64), (c % 7) as u64), 0);
+            }
             // node(p1): after (x, out 0, addr 0) and input y
             let a = step(step(step(step(h0, x as u64), 0), 0), y as u64);
             // node(p2): after (x, out d, addr 0) and input y
@@ -326,12 +388,22 @@ pub fn pool(tier: Tier, seed: u64, thin: usize) -> Vec<Family> {
             };
             let mut kv: Kv = vec![];
             for (p, vx, vy) in [(&p1, 0u64, o2), (&p2, d, 0u64)].iter() {
+                for c in 0..lead {
+                    let mut k = (*p).clone();
+                    k.push(c as u8);
+                    kv.push((k, (c % 7) as u64));
+                }
                 let mut k = (*p).clone();
                 k.push(x);
                 kv.push((k, *vx));
                 let mut k = (*p).clone();
                 k.push(y);
                 kv.push((k, *vy));
+                for c in 0..trail {
+                    let mut k = (*p).clone();
+                    k.push(255 - c as u8);
+                    kv.push((k, (c % 5) as u64 * 3));
+                }
             }
             kv.sort();
             Case { set: false, kv, family: "cache-digest-collision", index: i }
